@@ -84,6 +84,19 @@ fn judge_restart(cx: &mut Cx, sim: &mut Sim, idx: usize, keys: &[RecordKey], exp
             cx.count("restart:indexed-but-unreadable");
         }
     }
+    // a listed record is listed with the version it serves (chunks as Chunk, every other kind by the hash of the
+    // value that get returns): this is what the node advertises to its neighbours after the restart
+    for (a, t) in listed.iter() {
+        let k = a.to_record_key();
+        if let Some(r) = sim.get_local(idx, &k) {
+            let is_chunk = ant_protocol::storage::RecordHeader::is_record_of_type_chunk(&r).unwrap_or(false);
+            let want = if is_chunk { ant_protocol::storage::RecordType::Chunk } else { ant_protocol::storage::RecordType::NonChunk(xor_name::XorName::from_content(&r.value)) };
+            if *t != want {
+                cx.violation("restart-lists-record-with-a-version-it-does-not-hold", format!("[{variant}] after restart a record of {} bytes is listed as {t:?}, the content served for it is {want:?}", r.value.len()), witness.clone());
+                break;
+            }
+        }
+    }
     for a in listed.keys() {
         if !keys.contains(&a.to_record_key()) {
             cx.violation("restart-lists-unknown-key", format!("[{variant}] store lists {a:?} which was never put"), witness.clone());
@@ -422,9 +435,17 @@ fn full_store_case(cx: &mut Cx) {
             }
             drain(&mut sim);
         }
-        if i % 256 == 255 {
+        // case 0 lets the driver keep up (drain every 256 puts); case 1 is a burst: all writes complete while the
+        // driver is busy, so more completion notifications are outstanding than its command channel (10000) holds
+        if cx.index == 0 && i % 256 == 255 {
             drain(&mut sim);
         }
+    }
+    if cx.index != 0 {
+        // let every pending write complete before the driver reads a single notification (the runtime runs a few
+        // dozen tasks per yield)
+        sim.yield_rounds(900);
+        cx.count("full-store:burst-without-driver");
     }
     let mut d = || true;
     if !sim.settle(&mut d) {
